@@ -79,7 +79,9 @@ NoCrashC == (Rec.op # "singular" /\ Rec.op # "gate_err") => ~Has("exc")
 GateTable(name) == CASE name = "H" -> GateH [] name = "S" -> GateS [] name = "X" -> GateX
                      [] name = "Y" -> GateY [] name = "Z" -> GateZ
                      [] name = "CNOT" -> GateCNOT [] name = "CNOTrev" -> GateCNOTrev
-GateOK == (Rec.op = "gate" /\ Has("ret")) => DecM(Rec.ret) = GateTable(Rec.name)
+\* (ret2: the same constructor called again after the caller changed the first gate's table in place)
+GateOK == (Rec.op = "gate" /\ Has("ret")) => /\ DecM(Rec.ret) = GateTable(Rec.name)
+                                             /\ Has("ret2") => DecM(Rec.ret2) = GateTable(Rec.name)
 \* action of the gate placed on qubits qs (ascending) of an n-qubit register, images of X_1,Z_1,..,X_n,Z_n
 GateActionOK == (Rec.op = "gate_action" /\ Has("imgs")) =>
     DecM(Rec.imgs) = EmbedMap(GateTable(Rec.name), Rec.qs, Rec.n)
